@@ -21,6 +21,14 @@ fn vi_cut(_v: &[u8], _t: Id) -> bool {
     false
 }
 
+static mut RT_ADDS: crate::verif_env::Ghost<usize> = crate::verif_env::ghost(80, 0);
+/// `RoutingTable::add` as a probe (what is learned from a reply is C09 / C18 / C14's subject; here
+/// only *whether* the responder is offered to the table matters)
+fn rt_add_probe(_rt: &mut crate::common::RoutingTable, _n: Node) -> bool {
+    unsafe { RT_ADDS.v += 1 };
+    true
+}
+
 fn lookup(core: &mut Core, target: Id, req: GetRequestSpecific) {
     let mut q = IterativeQuery::new(Id::from(ME), target, req);
     q.kani_track(TID);
@@ -38,12 +46,13 @@ fn envelope(tid: u32, ro: bool, rs: ResponseSpecific) -> Message {
 //@ standins: tracing lru vcoll
 //@ desc: get_immutable glue: for an in-flight lookup of target t, a get_immutable response (right or wrong tid, read-only or not) is surfaced and recorded only if hash(v) = t, the tid belongs to the lookup and the reply is not read-only; a value whose hash differs is dropped and never recorded; a read-only reply changes nothing; the responder is added to the routing table only for a reply matching the lookup's tid
 //@ bounds: one lookup, one response; v 1 symbolic byte; target = H(v) or another id (H uninterpreted, bound to SHA-1 by C02.O3); symbolic tid match and read_only bits; no closer nodes in the reply; empty routing tables; unwind 26
-//@ stubs: hash_immutable -> H; from_dht_message / from_dht_response -> flagged cuts (other kinds); Instant::now; getrandom::fill
+//@ stubs: hash_immutable -> H; from_dht_message / from_dht_response -> flagged cuts (other kinds); RoutingTable::add -> probe counting calls (what is learned from replies is C09/C14/C18); Instant::now; getrandom::fill
 //@ functions: Core::handle_response (GetImmutable arm + bookkeeping), validate_immutable, IterativeQuery::{inflight,add_responding_node,response}, RoutingTable::add
 #[kani::proof]
 #[kani::stub(crate::common::immutable::hash_immutable, uf::h)]
 #[kani::stub(crate::common::mutable::MutableItem::from_dht_message, mh::from_dht_message_cut)]
 #[kani::stub(crate::common::signed_announce::SignedAnnounce::from_dht_response, sh::from_dht_cut)]
+#[kani::stub(crate::common::routing_table::RoutingTable::add, rt_add_probe)]
 #[kani::stub(std::time::Instant::now, clock::now)]
 #[kani::stub(getrandom::fill, rnd::fill)]
 #[kani::unwind(26)]
@@ -79,7 +88,7 @@ fn c02_o4a_immutable_glue() {
         None => assert!(!accept, "C02.O4 an authentic value for an in-flight lookup is delivered"),
     }
     assert!(recorded == accept as usize, "C02.O4 only authentic values are recorded in the lookup");
-    let learned = core.routing_table.size();
+    let learned = unsafe { RT_ADDS.v };
     if ro || !tid_ok {
         assert!(learned == 0, "C09/C18.O4 replies that are read-only or do not match an in-flight request teach nothing");
     }
@@ -99,12 +108,13 @@ fn c02_o4a_immutable_glue() {
 //@ standins: tracing lru vcoll
 //@ desc: get_mutable glue with an earlier authentic item already recorded in the lookup: a later get_mutable response -- whose key, seq and signature bytes symbolically repeat the recorded item's or differ, around any value -- is surfaced and recorded only if MutableItem::from_dht_message was asked about exactly this response (target of the lookup, the response's k, v, seq, sig, the lookup's salt) and accepted it; otherwise nothing surfaces, the recorded responses are unchanged; nothing is yielded without verification (a replayed signature around another value included)
 //@ bounds: one lookup with one recorded item (k = [1;32], sig = [2;64], seq0 symbolic, 1-byte value); one response with symbolic replay bits for key / signature / seq, symbolic 1-byte value, symbolic contract verdicts; tid matches; not read-only; unwind 66
-//@ stubs: MutableItem::from_dht_message -> contract (leaf C02.O1a-f) with call counter and last-argument record; validate_immutable, SignedAnnounce::from_dht_response -> flagged cuts; Instant::now; getrandom::fill
+//@ stubs: MutableItem::from_dht_message -> contract (leaf C02.O1a-f) with call counter and last-argument record; validate_immutable, SignedAnnounce::from_dht_response -> flagged cuts; RoutingTable::add -> probe; Instant::now; getrandom::fill
 //@ functions: Core::handle_response (GetMutable arm + bookkeeping), IterativeQuery::{inflight,response,responses}
 #[kani::proof]
 #[kani::stub(crate::common::immutable::validate_immutable, vi_cut)]
 #[kani::stub(crate::common::mutable::MutableItem::from_dht_message, mh::from_dht_message_contract)]
 #[kani::stub(crate::common::signed_announce::SignedAnnounce::from_dht_response, sh::from_dht_cut)]
+#[kani::stub(crate::common::routing_table::RoutingTable::add, rt_add_probe)]
 #[kani::stub(std::time::Instant::now, clock::now)]
 #[kani::stub(getrandom::fill, rnd::fill)]
 #[kani::unwind(66)]
@@ -160,6 +170,62 @@ fn c02_o4b_mutable_glue_after_cached_item() {
     kani::cover!(accept && same_k && same_sig && same_seq && val != val0);
     kani::cover!(!accept && same_k && same_sig && same_seq && val != val0);
     kani::cover!(accept && !same_k);
+    std::mem::forget(out);
+    std::mem::forget(core);
+}
+
+//@ ob: C07.O5
+//@ tier: thorough
+//@ cap: 3000
+//@ mem: 28
+//@ standins: tracing lru vcoll
+//@ also: C08
+//@ desc: every expected reply's referral is merged into the lookup: for a reply (matching an in-flight request of a get_peers lookup) that is a get_peers reply with values, a no-values reply or a find_node reply, each carrying one closer node, the lookup's candidate list afterwards contains that node -- also when the reply carried values and was surfaced -- and a reply with a token makes the responder a storage candidate carrying that token; a reply whose tid belongs to no lookup merges nothing
+//@ bounds: one lookup with one tracked tid; reply kind symbolic among the three; one referral node (concrete id, private IP); tid matching or not (symbolic); unwind 26
+//@ stubs: RoutingTable::add -> probe; other kinds' validators -> flagged cuts; Instant::now; getrandom::fill
+//@ functions: Core::handle_response (bookkeeping before the payload match), Message::{get_closer_nodes,get_token}, IterativeQuery::{add_candidate,add_responding_node}
+#[kani::proof]
+#[kani::stub(crate::common::immutable::validate_immutable, vi_cut)]
+#[kani::stub(crate::common::mutable::MutableItem::from_dht_message, mh::from_dht_message_cut)]
+#[kani::stub(crate::common::signed_announce::SignedAnnounce::from_dht_response, sh::from_dht_cut)]
+#[kani::stub(crate::common::routing_table::RoutingTable::add, rt_add_probe)]
+#[kani::stub(std::time::Instant::now, clock::now)]
+#[kani::stub(getrandom::fill, rnd::fill)]
+#[kani::unwind(26)]
+fn c07_o5_referrals_merged() {
+    clock::set(0);
+    let mut core = new_core(false, Vec::with_capacity(1));
+    let target = Id::from([5u8; 20]);
+    lookup(&mut core, target, GetRequestSpecific::GetPeers(GetPeersRequestArguments { info_hash: target }));
+    let from = SocketAddrV4::new([10, 0, 0, 9].into(), 6881);
+    let mut rid = [0u8; 20];
+    rid[0] = 0x44;
+    let referral = Node::new(Id::from(rid), SocketAddrV4::new([10, 0, 0, 77].into(), 7777));
+    let kind: u8 = kani::any();
+    kani::assume(kind < 3);
+    let tid_ok: bool = kani::any();
+    let nodes: Box<[Node]> = Box::new([referral.clone()]);
+    let responder_id = Id::from([9u8; 20]);
+    let rs = match kind {
+        0 => ResponseSpecific::GetPeers(crate::common::GetPeersResponseArguments { responder_id, token: Box::new([1, 2, 3, 4]), nodes: Some(nodes), values: vec![SocketAddrV4::new([10, 0, 0, 50].into(), 5000)] }),
+        1 => ResponseSpecific::NoValues(crate::common::NoValuesResponseArguments { responder_id, token: Box::new([1, 2, 3, 4]), nodes: Some(nodes) }),
+        _ => ResponseSpecific::FindNode(crate::common::FindNodeResponseArguments { responder_id, nodes }),
+    };
+    let out = core.handle_response(from, envelope(if tid_ok { TID } else { TID + 1 }, false, rs));
+    let q = core.iterative_queries.get(&target).unwrap();
+    let merged = q.closest().nodes().iter().any(|n| n.id() == referral.id());
+    let responders = q.kani_responders_len();
+    if tid_ok {
+        assert!(merged, "C07.O5 the closer nodes of every expected reply are merged into the lookup's candidates");
+        assert!(responders == (kind < 2) as usize, "C08.O3 a responder that sent a token becomes a storage candidate");
+        assert!(out.is_some() == (kind == 0), "C02.O4 only a reply with values surfaces a response");
+    } else {
+        assert!(!merged && responders == 0 && out.is_none(), "C09 a reply that matches no in-flight request has no effect on the lookup");
+    }
+    assert!(!cut_reached(), "CUT: another kind's validator reached");
+    kani::cover!(tid_ok && kind == 0);
+    kani::cover!(tid_ok && kind == 2);
+    kani::cover!(!tid_ok);
     std::mem::forget(out);
     std::mem::forget(core);
 }
